@@ -108,12 +108,14 @@ fn kernel_placed(cx: &mut Ctx, case: &Value, pl: Place, want3: bool, want11: boo
         let d = pl.lat(&case["d"]);
         let meets = case["seg_meets"].as_bool().unwrap();
         let proper = case["seg_proper"].as_bool().unwrap();
-        for (p, q, what) in [(Line::new(a, b), Line::new(c, d), "(ab, cd)"), (Line::new(c, d), Line::new(a, b), "(cd, ab)"), (Line::new(b, a), Line::new(d, c), "(ba, dc)")] {
+        // the true crossing is within a few ulps (times a bounded factor) of c
+        let near_c = |i: &Coord<f64>| (i.x - c.x).abs() <= 1e-9 * 64.0 * scale && (i.y - c.y).abs() <= 1e-9 * 64.0 * scale;
+        for (p, q, what) in [(Line::new(a, b), Line::new(c, d), "(ab, cd)"), (Line::new(c, d), Line::new(a, b), "(cd, ab)"), (Line::new(b, a), Line::new(d, c), "(ba, dc)"), (Line::new(d, c), Line::new(b, a), "(dc, ba)")] {
             let got = guard(|| line_intersection(p, q));
             let ok = match &got {
                 Ok(None) => !meets,
                 Ok(Some(LineIntersection::SinglePoint { intersection, is_proper })) => {
-                    meets && *is_proper == proper && (proper || (intersection.x.to_bits() == c.x.to_bits() && intersection.y.to_bits() == c.y.to_bits()))
+                    meets && *is_proper == proper && (if proper { near_c(intersection) } else { intersection.x.to_bits() == c.x.to_bits() && intersection.y.to_bits() == c.y.to_bits() })
                 }
                 _ => false,
             };
